@@ -199,7 +199,7 @@ def random_script(rng, sch, length, nids=12, prefill=0, law=False, values=None):
                 inner = sh.inner()
                 p = rng.choice(inner) if inner and rng.random() < 0.6 else None
                 ops.append("%s,%d,%s,%d" % (rng.choice(["dup", "dup", "dupsib"]), anyid(), "-" if p is None else p,
-                                            rng.choice([1, 1, 1, 0, 5, 0x41, 9])))
+                                            rng.choice([1, 1, 1, 0, 5, 9])))
             elif k < 0.7:
                 roots = [i for i in ids if sh.parent.get(i) is None]
                 if len(roots) >= 2:
